@@ -241,19 +241,34 @@ Definition aagree (c : around) (o : aobs) : bool :=
   (let '(base, a, b) := bits_after bitsf L P (Z.of_nat (a_nleaves c)) (Z.of_nat (S t)) in
    Qle_bool (Qabs (inject_Z a * o_log2 o + inject_Z b - o_bits o)) ((1 # 10000) * (1 + Qabs (o_bits o)))).
 
+(* exhaustive bit-formula grid (wave 5): for every level count of a range, the counter after one round against the
+   TRANSLATED triple (base, a, b); kind 0 = uniform, 1 = rotated uniform, 2 = TernGrad, 3 = DRIVE; each entry is
+   (num_levels, observed counter, float value of log2 of the expected base) *)
+Definition bits_fn (kind : Z) : Z -> Z -> Z -> Z * Z * Z :=
+  if (kind =? 0)%Z then usq_bits else if (kind =? 1)%Z then rusq_bits else if (kind =? 2)%Z then tern_bits else drive_bits.
+Definition bits_entry_ok (kind P n : Z) (e : Z * Q * Q) : bool :=
+  let '(L, obs, l2) := e in
+  let '(base, a, b) := bits_fn kind L P n in
+  (base =? (if (kind <=? 1)%Z then L else if (kind =? 2)%Z then 3 else 1))%Z &&
+  Qle_bool (Qabs (inject_Z a * l2 + inject_Z b - obs)) ((1 # 100000) * (1 + Qabs obs)).
+Definition bits_grid_agree (kind P n : Z) (es : list (Z * Q * Q)) : bool := forallb (bits_entry_ok kind P n) es.
+
 Inductive C11_case :=
 | CU (fn : qfn) (v : list Q) (G : Z)
 | CD (x : list Q)
-| CAs (cs : list around).
+| CAs (cs : list around)
+| CBits (kind P n : Z) (es : list (Z * Q * Q)).
 Inductive C11_obs :=
 | OU (obs : list sweep)
 | OD (obs : list Q)
-| OAs (os : list aobs).
+| OAs (os : list aobs)
+| OBits.
 
 Definition C11_agree (c : C11_case) (o : C11_obs) : bool :=
   match c, o with
   | CU fn v G, OU obs => uagree fn v G obs
   | CD x, OD obs => dagree x obs
   | CAs cs, OAs os => all2 aagree cs os
+  | CBits kind P n es, OBits => bits_grid_agree kind P n es
   | _, _ => false
   end.
